@@ -57,6 +57,7 @@ EW = {
     'psi': (algopy.special.psi, lambda lo, hi: (-2.0, 2.0), lambda lo, hi: lo > 0.6 and hi < 5),
     'absolute': (algopy.absolute, _sym_even(abs), lambda lo, hi: lo > 0.2 or hi < -0.2),
     'sign': (algopy.sign, lambda lo, hi: (-1.0, 1.0), lambda lo, hi: lo > 0.2 or hi < -0.2),
+    'conjugate': (algopy.conjugate, lambda lo, hi: (lo, hi), lambda lo, hi: True),      # on real data: the identity, still one node
     'pow2': (lambda x: x ** 2, _sym_even(lambda v: v * v), lambda lo, hi: max(abs(lo), abs(hi)) < 6),
     'pow3': (lambda x: x ** 3, _mono(lambda v: v ** 3), lambda lo, hi: max(abs(lo), abs(hi)) < 4),
     'powm2': (lambda x: x ** (-2), lambda lo, hi: (1 / hi ** 2, 1 / lo ** 2), lambda lo, hi: lo > 0.3),
@@ -69,7 +70,7 @@ BIN = {'add': lambda a, b: a + b, 'sub': lambda a, b: a - b, 'mul': lambda a, b:
 
 # element-wise functions the tracer can record (Function has a method / pb_* exists)
 TRACEABLE = {'sin', 'cos', 'tan', 'exp', 'expm1', 'square', 'negative', 'log', 'log1p', 'sqrt', 'reciprocal', 'erf', 'expit',
-             'logit', 'dawsn', 'gammaln', 'psi', 'absolute', 'sign', 'pow2', 'pow3', 'powm2', 'pow1.5'}
+             'logit', 'dawsn', 'gammaln', 'psi', 'absolute', 'sign', 'pow2', 'pow3', 'powm2', 'pow1.5', 'conjugate'}
 
 
 def _imul(a, b):
@@ -380,6 +381,22 @@ class Gen:
             self.vars[g]['iv'] = (lo, hi)
         return True
 
+    def s_bufferconst(self):
+        """a buffer as in s_buffer, then an entry that is already active (written from a traced value, possibly read back and
+        used) is overwritten by a constant: the adjoint arriving for that entry afterwards must not reach the old writer"""
+        n0 = len(self.steps)
+        if not self.s_buffer():
+            return False
+        sets = [st for st in self.steps[n0:] if st['op'] == 'setitem']
+        if not sets:
+            return True
+        st = self.rng.choice(sets)
+        c = self.rng.choice([2.0, -0.5, 0.0, 1.25])
+        self.steps.append({'op': 'setconst', 'buf': st['buf'], 'idx': list(st['idx']), 'c': c})
+        lo, hi = self.vars[st['buf']]['iv']
+        self.vars[st['buf']]['iv'] = (min(lo, c), max(hi, c))
+        return True
+
     def s_buffer2d(self):
         """a 2-D buffer filled by broadcasting assignments: buf[0:m, :] = vector, buf[:, k] = scalar"""
         vec = self.pick(lambda v: len(v['shape']) == 1 and not v.get('buf'))
@@ -457,7 +474,7 @@ class Gen:
         for sh in input_shapes:
             self.new(sh, (-BOX, BOX))
         kinds = kinds or ['ew', 'ew', 'bin', 'bin', 'binc', 'getitem', 'sum', 'transpose', 'reshape', 'dot', 'dotc',
-                          'outer', 'prod', 'buffer', 'linalg', 'fftfilter', 'buffer2d', 'symvec']
+                          'outer', 'prod', 'buffer', 'linalg', 'fftfilter', 'buffer2d', 'symvec', 'bufferconst']
         nsteps = self.rng.randint(1, self.maxsteps)
         tries = 0
         made = 0
@@ -596,6 +613,9 @@ def run_program(prog, inputs):
         elif op == 'setitem':
             idx = tuple(st['idx'])
             vals[st['buf']][idx[0] if len(idx) == 1 else idx] = vals[st['val']]
+        elif op == 'setconst':
+            idx = tuple(st['idx'])
+            vals[st['buf']][idx[0] if len(idx) == 1 else idx] = st['c']
         elif op == 'setbc':
             if st['mode'] == 'rows':
                 vals[st['buf']][0:vals[st['buf']].shape[0], :] = vals[st['val']]
